@@ -19,18 +19,19 @@ import (
 
 // entry is what the model knows about the cached answer of one (name, qtype).
 type entry struct {
-	Has     bool     `json:"has"`
-	Ver     int      `json:"version"`
-	At      int64    `json:"fetched_at"`           // virtual second at which the upstream produced the answer
-	TTLs    []uint32 `json:"ttls"`                 // TTLs of ALL records of that response, in answer order (CNAMEs, the RRSet, unrelated extras)
-	Own     []uint32 `json:"rrset_ttls,omitempty"` // of the records the lookup returns (the RRSet at the end of the CNAME chain)
-	CN      []uint32 `json:"cname_ttls,omitempty"` // of the CNAME records of the chain
-	Ex      []uint32 `json:"extra_ttls,omitempty"` // of records owned by an unrelated name
-	End     string   `json:"data_from,omitempty"`  // name at the end of the CNAME chain when the answer was fetched
-	Empty   bool     `json:"empty,omitempty"`      // no record of the asked type (the response may still carry CNAMEs / extras)
-	Certain bool     `json:"certain"`              // false: the cache is smaller than the working set, the entry may be gone
-	Why     string   `json:"why,omitempty"`
-	Jumped  bool     `json:"clock_stepped_during_fetch,omitempty"`
+	Has      bool     `json:"has"`
+	Ver      int      `json:"version"`
+	At       int64    `json:"fetched_at"`           // virtual second at which the upstream produced the answer
+	TTLs     []uint32 `json:"ttls"`                 // TTLs of ALL records of that response, in answer order (CNAMEs, the RRSet, unrelated extras)
+	Own      []uint32 `json:"rrset_ttls,omitempty"` // of the records the lookup returns (the RRSet at the end of the CNAME chain)
+	CN       []uint32 `json:"cname_ttls,omitempty"` // of the CNAME records of the chain
+	Ex       []uint32 `json:"extra_ttls,omitempty"` // of records owned by an unrelated name
+	End      string   `json:"data_from,omitempty"`  // name at the end of the CNAME chain when the answer was fetched
+	Empty    bool     `json:"empty,omitempty"`      // no record of the asked type (the response may still carry CNAMEs / extras)
+	Certain  bool     `json:"certain"`              // false: the cache is smaller than the working set, the entry may be gone
+	Why      string   `json:"why,omitempty"`
+	FailedBy string   `json:"failed_by,omitempty"` // after-failure: what the upstream answered
+	Jumped   bool     `json:"clock_stepped_during_fetch,omitempty"`
 }
 
 type seqOp struct {
@@ -38,7 +39,7 @@ type seqOp struct {
 	Name   string  `json:"name,omitempty"`
 	D      int64   `json:"seconds,omitempty"`          // advance: step; resolve: step applied while a query is in flight
 	JumpAt int     `json:"step_at_query,omitempty"`    // resolve: the clock steps when the n-th upstream query arrives
-	Fail   string  `json:"fail,omitempty"`             // fail: none | servfail | http400
+	Fail   string  `json:"fail,omitempty"`             // fail: none | servfail | http400; rcode: "<name>/<type>=<code>" or "cleared"
 	Size   int     `json:"size,omitempty"`             // cachesize
 	Spec   any     `json:"zone_change,omitempty"`      // zone: what changed besides the data version
 	Clock  int64   `json:"clock"`                      // virtual second at the start of the op
@@ -230,6 +231,7 @@ type seqHist struct {
 	counts       map[string]int64
 	classes      map[string]bool
 	failedBefore bool
+	rcodes       map[dohfake.Key]int // response codes forced on (name, qtype; type 0 = every qtype) while an episode lasts
 }
 
 func (h *seqHist) payload() map[string]any {
@@ -264,7 +266,7 @@ func (e *env) seqHistory(work string, idx int, rng *mrand.Rand) {
 	srv.Reset(dohfake.NewZone())
 
 	h := &seqHist{e: e, work: work, idx: idx, srv: srv, clock: newClock(), size: 32,
-		entries: map[string]*[3]entry{}, counts: map[string]int64{}, classes: map[string]bool{}}
+		entries: map[string]*[3]entry{}, counts: map[string]int64{}, classes: map[string]bool{}, rcodes: map[dohfake.Key]int{}}
 	defer bind(h.clock)()
 	// All four names exist in the zone; 0..2 of them are CNAME aliases (the second one may point to the first: a
 	// chain of two), the others carry data. The history looks up 1..4 of them, aliases preferred.
@@ -384,7 +386,37 @@ func (e *env) seqHistory(work string, idx int, rng *mrand.Rand) {
 			h.specs = append(h.specs, ns)
 			ns.install(srv, h.ver)
 			h.counts["seq_zone_changes"]++
-		case p < 96:
+		case p >= 93 && p < 97:
+			// an upstream failure of another kind: a response code outside 1..5 (header codes 6, 9, 10, extended codes
+			// 16, 23 whose upper bits travel in the OPT record; 5 as the ordinary control) forced on one name of a chain
+			// for one qtype or for all. It lasts until the next op of this kind.
+			op.Kind = "rcode"
+			if len(h.rcodes) > 0 {
+				clear(h.rcodes)
+				op.Fail = "cleared"
+			} else {
+				zone := h.specs[h.ver]
+				cur := h.names[rng.IntN(len(h.names))]
+				for hops := rng.IntN(3); hops > 0; hops-- { // the name looked up, or a name further down its CNAME chain
+					if c, ok := zone.Alias[cur]; ok {
+						cur = c.Target
+					}
+				}
+				key := dohfake.Key{Name: cur}
+				typ := "all"
+				if k := rng.IntN(4); k < 3 {
+					key.Type, typ = qtypes[k], qnames[k]
+				}
+				h.rcodes[key] = []int{9, 9, 16, 16, 23, 6, 10, 5}[rng.IntN(8)]
+				op.Fail = fmt.Sprintf("%s/%s=%d", cur, typ, h.rcodes[key])
+				h.counts["seq_rcode_episodes"]++
+			}
+			forced := map[dohfake.Key]int{}
+			for k, v := range h.rcodes {
+				forced[k] = v
+			}
+			srv.Update(func(z *dohfake.Zone) { z.Rcode = forced })
+		case p < 93:
 			op.Kind = "fail"
 			if h.fail == dohfake.FailNone {
 				h.fail = dohfake.FailServfail + rng.IntN(2)
@@ -556,6 +588,35 @@ func forcedBy(en *entry, age int64) string {
 	return ""
 }
 
+// forcedRcode: the response code the upstream gives to a query (name, qtype k) now: forced on the name itself or on
+// any name of its CNAME chain, for that qtype or for all (0 = none). dohfake checks every name it walks through.
+func (h *seqHist) forcedRcode(zone *seqZone, name string, k int) int {
+	for hops := 0; hops < 4; hops++ {
+		if rc := h.rcodes[dohfake.Key{Name: name, Type: qtypes[k]}]; rc != 0 {
+			return rc
+		}
+		if rc := h.rcodes[dohfake.Key{Name: name}]; rc != 0 {
+			return rc
+		}
+		c, ok := zone.Alias[name]
+		if !ok {
+			break
+		}
+		name = c.Target
+	}
+	return 0
+}
+
+func rcodeClass(rc int) string {
+	switch {
+	case rc >= 16:
+		return "extended-16-and-up"
+	case rc > 5:
+		return "header-6-15"
+	}
+	return "header-1-5"
+}
+
 // resolve runs one Resolve and judges it. It returns true when model and implementation can no longer be
 // reconciled (after a violation whose effect on the cache the monitor cannot know); the history then ends.
 func (h *seqHist) resolve(op *seqOp) (stop bool) {
@@ -612,8 +673,8 @@ func (h *seqHist) resolve(op *seqOp) (stop bool) {
 	ents := h.entries[op.Name]
 	var want [3]int // version each key must show; verBad = unknown
 	var expect []string
-	expectErr, afterFail, sent, allCached := false, false, 0, true
-	for k := 0; k < 3 && !expectErr; k++ {
+	expectErr, afterFail, sent, allCached, failedBy, failedRc := false, false, 0, true, "", 0
+	for k := 0; k < 3; k++ {
 		en := &ents[k]
 		class, reason := h.decide(en, now)
 		expect = append(expect, fmt.Sprintf("%s:%s(%s)", qnames[k], class, reason))
@@ -722,11 +783,27 @@ func (h *seqHist) resolve(op *seqOp) (stop bool) {
 		if sent == op.JumpAt {
 			now += op.D
 		}
-		if h.fail != dohfake.FailNone {
-			expectErr = true
-			*en = entry{Why: "after-failure"}
+		if rc := h.forcedRcode(zone, op.Name, k); h.fail != dohfake.FailNone || rc != 0 {
+			by := failNames[h.fail]
+			if h.fail == dohfake.FailNone {
+				by = fmt.Sprintf("rcode%d", rc)
+			}
+			if !expectErr {
+				expectErr, failedBy, failedRc = true, by, rc
+				if h.fail != dohfake.FailNone {
+					failedRc = 0
+				}
+			}
+			*en = entry{Why: "after-failure", FailedBy: by}
 			h.failedBefore = true
-			break
+			want[k] = verBad
+			if err != nil {
+				break // Resolve gave up here, as it must
+			}
+			continue // it went on (a violation, recorded below): keep the model in step for the remaining keys
+		}
+		if en.Why == "after-failure" && strings.HasPrefix(en.FailedBy, "rcode") {
+			h.counts["seq_refetched_after_rcode_failure"]++
 		}
 		all, own, cn, ex, end := zone.response(op.Name, k)
 		*en = entry{Has: true, Ver: h.ver, At: now, TTLs: all, Own: own, CN: cn, Ex: ex, End: end, Empty: len(own) == 0, Certain: h.size >= 16,
@@ -743,18 +820,25 @@ func (h *seqHist) resolve(op *seqOp) (stop bool) {
 	// ---- outcome ----
 	switch {
 	case expectErr && err == nil:
-		h.viol("failure:data-returned-while-upstream-failing", "Resolve(%s) returned no error although its upstream query was answered with a failure (%s)", op.Name, failNames[h.fail])
-		return true
+		sig := "failure:data-returned-while-upstream-failing"
+		if failedRc != 0 {
+			sig = "failure:no-error-for-upstream-response-code:" + rcodeClass(failedRc)
+		}
+		h.viol(sig, "Resolve(%s) returned no error although its upstream query was answered with a failure (%s)", op.Name, failedBy)
+		return false // the failed key is absent in the model: serving it from cache next time is the follow-up violation
 	case expectErr:
 		h.counts["seq_failed_resolves"]++
-		h.classes["failed/"+failNames[h.fail]] = true
+		h.classes["failed/"+failedBy] = true
+		if failedRc != 0 {
+			h.counts["seq_failed_resolves_rcode_"+rcodeClass(failedRc)]++
+		}
 		if ec != errUpstream {
-			h.viol("failure:wrong-error", "Resolve(%s) failed with %q while the upstream failure was %s", op.Name, err, failNames[h.fail])
+			h.viol("failure:wrong-error", "Resolve(%s) failed with %q while the upstream failure was %s", op.Name, err, failedBy)
 		}
 		return false
 	case err != nil:
 		sig := "error:resolve-failed-while-upstream-answered"
-		if h.failedBefore && h.fail == dohfake.FailNone {
+		if h.failedBefore && h.fail == dohfake.FailNone && len(h.rcodes) == 0 {
 			sig = "failure-cached:error-after-recovery"
 		}
 		h.viol(sig, "Resolve(%s) failed with %q although every upstream query it sent (%v) was answered without failure", op.Name, err, n)
@@ -764,10 +848,10 @@ func (h *seqHist) resolve(op *seqOp) (stop bool) {
 		h.counts["seq_failing_upstream_served_from_cache"]++
 		h.classes["served-while-upstream-failing"] = true
 	}
-	if afterFail && h.fail == dohfake.FailNone {
+	if afterFail && !expectErr {
 		h.counts["seq_resolves_after_recovery"]++
 	}
-	got, problem := observe(op.Name, res, func(v int) (string, *[3]rrset) {
+	got, problem, pclass := observe(op.Name, res, func(v int) (string, *[3]rrset) {
 		if v < 0 || v >= len(h.specs) {
 			return "", nil
 		}
@@ -778,7 +862,7 @@ func (h *seqHist) resolve(op *seqOp) (stop bool) {
 	for k := 0; k < 3; k++ {
 		switch {
 		case got[k] == verBad:
-			h.viol("wrong-data:"+qnames[k]+":not-one-rrset", "Resolve(%s): %s", op.Name, problem)
+			h.viol("wrong-data:"+qnames[k]+":"+pclass[k], "Resolve(%s): %s", op.Name, problem)
 		case want[k] == verBad: // violation already recorded above
 		case got[k] != want[k] && n[k] == 0:
 			h.viol("wrong-data:"+qnames[k]+":cache-returned-other-version", "Resolve(%s) served %s data of version %d without an upstream query; the cached answer is version %d", op.Name, qnames[k], got[k], want[k])
